@@ -177,6 +177,7 @@ type Sim struct {
 
 	wake      chan struct{}
 	traceHash uint64
+	traceSum  uint64
 	YieldsByKind [len(kindNames)]int
 	Deadlock  string
 
@@ -457,7 +458,12 @@ func Probe(name string) {
 func (s *Sim) hashTrace(a, b uint64) {
 	s.traceHash = (s.traceHash ^ a) * 1099511628211
 	s.traceHash = (s.traceHash ^ b) * 1099511628211
+	s.traceSum += (a*0x9E3779B97F4A7C15 ^ b) * 1099511628211
 }
+
+// TraceMultiset is an order-insensitive digest of the same decisions (for
+// scenarios whose step order depends on an unseedable map order).
+func (s *Sim) TraceMultiset() uint64 { return s.traceSum }
 
 func strHash(x string) uint64 {
 	var h uint64 = 1469598103934665603
